@@ -48,6 +48,7 @@ struct FileNode {
     int open_errno = 0;                     // every open of this path fails with it
     uint32_t uid = 0;
     int mode = 0644;
+    bool locked_by_other = false;           // another process holds an advisory record lock (fcntl/lockf) on the file right now
 };
 struct SockNode {
     int state = 0;                          // 0 bound datagram socket, 1 nobody bound (ECONNREFUSED), 2 EACCES, 3 bound stream socket (EPROTOTYPE)
@@ -136,6 +137,7 @@ struct Op {
     bool have_schedule = false;
     // ForkExec: thread B runs `ex`; the forking thread forks when B is at scheduling point fork_point; the child runs child_ex
     int fork_point = 0;
+    bool fork_window = false;               // ForkExec: while the forking thread is between its prepare and parent handlers, thread B is let run once more (it may walk into whatever the handlers hold)
     ExecOp child_ex;
     std::vector<ExecOp> extra_calls;        // ForkExec: further parent threads, each parked inside its call at extra_points[i] when the fork happens
     std::vector<int> extra_points;
